@@ -798,6 +798,9 @@ func c20Shapes(tier string) []treeShape {
 		{"subshell", "( " + leaf + " )", 1},
 		{"trap-int", "trap '' INT; " + leaf, 1},
 		{"trap-int-term", "trap '' INT TERM HUP QUIT; " + leaf + " >/dev/null 2>&1 & " + leaf, 2},
+		// the leader handles the interrupt and exits on its own (no signal death), its children ignore the interrupt
+		// (every background command of a non-interactive shell does) and hold no output of the task
+		{"trap-exit+bg", "trap 'exit 3' INT; " + leaf + " >/dev/null 2>&1 & " + leaf + " >/dev/null 2>&1 & wait", 2},
 	}
 	var level2 []struct {
 		n, s   string
@@ -869,15 +872,17 @@ func runC20(tier string, part, parts int) procxResult {
 			marker := fmt.Sprintf("m%d_%d_%d", os.Getpid(), si, caseNo)
 			other := marker + "_other"
 			defs := mkDefs(map[string]PipeCfg{
-				"victim":    {Conc: 1, QL: -1, Graph: graphOne, Script: map[string][]string{"a": sh.script}, TaskEnv: map[string]map[string]string{"a": {"VERIF_MARK": marker}}},
-				"bystander": {Conc: 1, QL: -1, Graph: graphOne, Script: map[string][]string{"a": {"sleep 600"}}, TaskEnv: map[string]map[string]string{"a": {"VERIF_MARK": other}}},
+				"victim": {Conc: 1, QL: -1, Graph: graphOne, Script: map[string][]string{"a": sh.script}, TaskEnv: map[string]map[string]string{"a": {"VERIF_MARK": marker}}},
+				// the bystander's first script line leaves a background helper behind (a process group of its own that outlives
+				// its command), the second line runs: neither may be touched by the cancel of the victim
+				"bystander": {Conc: 1, QL: -1, Graph: graphOne, Script: map[string][]string{"a": {"bash -c 'sleep 600 >/dev/null 2>&1 &'", "sleep 600"}}, TaskEnv: map[string]map[string]string{"a": {"VERIF_MARK": other}}},
 			})
 			pw := newProcWorld(defs, killTimeout)
 			desc := fmt.Sprintf("script %q, %s", sh.script, mode)
 			var by *prunner.PipelineJob
 			if mode != "forced-shutdown" {
 				by, _ = pw.r.ScheduleAsync("bystander", prunner.ScheduleOpts{})
-				for i := 0; i < 2500 && len(procsWithMarker(other)) < 1; i++ {
+				for i := 0; i < 2500 && countSleeps(other) < 2; i++ {
 					time.Sleep(2 * time.Millisecond)
 				}
 			}
@@ -938,8 +943,14 @@ func runC20(tier string, part, parts int) procxResult {
 				}
 			}
 			if by != nil {
-				if n := len(procsWithMarker(other)); n < 1 {
-					res.add("bystander-killed:"+shapeClass(sh.name), desc+": the process of another job was killed too")
+				if n := countSleeps(other); n < 2 {
+					res.add("bystander-killed:"+shapeClass(sh.name), fmt.Sprintf("%s: processes of another job were killed too (%d of its 2 sleep processes left)", desc, n))
+				}
+				// (kill the bystander's processes first: its cancel would otherwise wait for the kill timeout of its own helper)
+				for _, p := range procsWithMarker(other) {
+					var pid int
+					fmt.Sscanf(p, "%d:", &pid)
+					syscall.Kill(pid, syscall.SIGKILL)
 				}
 				_ = pw.r.CancelJob(by.ID)
 				pw.wait(by.ID, 10*time.Second)
